@@ -641,3 +641,44 @@ func (g *Gen) addConstGroupDemo() *S {
 	}
 	return pr(es...)
 }
+
+// bigFrameProgram: a function with n locals before a range loop with key and value variables, a call of a method on a local
+// receiver and a function literal call: local slot numbers around and beyond 128 and 256 (operands that are packed into
+// one instruction field have to hold them)
+func bigFrameProgram(n int) *Prog {
+	p := &Prog{ID: fmt.Sprintf("bigframe-%d", n), Pkg: "main", Main: "Main"}
+	p.Structs = []*StructDef{{Name: "Acc", Fields: []string{"T"}, FTypes: []*Ty{TInt}}}
+	pa := PtrTo("Acc")
+	p.Funcs = append(p.Funcs, &Func{Name: "Acc.Add", Recv: "a", RecvTy: "Acc", Params: []string{"x", "y"}, PTypes: []*Ty{TInt, TInt}, Results: []*Ty{TInt},
+		Body: []*S{{K: "opassign", Lhs: []*E{fld(v("a", pa), "T", TInt)}, Op: "+", E: bin("+", TInt, v("x", TInt), v("y", TInt))}, ret(fld(v("a", pa), "T", TInt))}})
+	ts := SliceOf(TInt)
+	var body []*S
+	for i := 0; i < n; i++ {
+		body = append(body, dcl(fmt.Sprintf("v%d", i), lit(TInt, int64(i%50))))
+	}
+	last := fmt.Sprintf("v%d", n-1)
+	body = append(body,
+		dcl("xs", &E{K: "slicelit", Ty: ts, Args: []*E{lit(TInt, 4), lit(TInt, 5), lit(TInt, 6)}}),
+		dcl("t", lit(TInt, 0)),
+		&S{K: "range", X: v("xs", ts), KName: "k", VName: "e", Body: []*S{{K: "opassign", Lhs: []*E{v("t", TInt)}, Op: "+", E: bin("+", TInt, bin("*", TInt, v("k", TInt), lit(TInt, 10)), bin("+", TInt, v("e", TInt), v(last, TInt)))}}},
+		dcl("acc", newS("Acc", "T", lit(TInt, 1))),
+		&S{K: "opassign", Lhs: []*E{v("t", TInt)}, Op: "+", E: mc(v("acc", pa), "Add", TInt, v("t", TInt), v("v0", TInt))},
+		&S{K: "range", X: v("xs", ts), KName: "k2", VName: "", Body: []*S{{K: "opassign", Lhs: []*E{v("t", TInt)}, Op: "+", E: v("k2", TInt)}}},
+		pr(sS("big"), v("t", TInt), v(last, TInt), fld(v("acc", pa), "T", TInt)),
+		ret(v("t", TInt)))
+	p.Funcs = append(p.Funcs, &Func{Name: "big", Results: []*Ty{TInt}, Body: body},
+		&Func{Name: "Main", Body: []*S{dcl("keep", lit(TInt, 77)), pr(sS("r"), &E{K: "call", Fn: "big", Ty: TInt, NRes: 1}, v("keep", TInt))}})
+	return p
+}
+
+var bigFrameSizes = []int{60, 118, 122, 124, 126, 127, 128, 130, 200, 252, 256, 260}
+
+func init() {
+	extraCorpus = append(extraCorpus, func(c *Ctx, r *rand.Rand) []map[string]string {
+		var out []map[string]string
+		for _, n := range bigFrameSizes {
+			out = append(out, bigFrameProgram(n).Files(false, nil))
+		}
+		return out
+	})
+}
